@@ -7,6 +7,7 @@ import (
 	"crypto/rand"
 	"io"
 	"runtime"
+	"sync"
 
 	"github.com/go-errors/errors"
 	"github.com/privacybydesign/gabi/big"
@@ -27,10 +28,14 @@ func GenerateConcurrent(bitsize int, stop chan struct{}) (<-chan *big.Int, <-cha
 	// this, so that we always stop all goroutines independent of whether the caller close()s stop
 	// or sends a struct{}{} to it.
 	stopped := make(chan struct{})
+	// stopped may be closed from several goroutines (below, and by every goroutine that encounters
+	// an error); closing a channel twice panics
+	var stoppedOnce sync.Once
+	closeStopped := func() { stoppedOnce.Do(func() { close(stopped) }) }
 	go func() {
 		select {
 		case <-stop:
-			close(stopped)
+			closeStopped()
 		case <-stopped: // stopped can also be closed by a goroutine that encountered an error
 		}
 	}()
@@ -43,7 +48,7 @@ func GenerateConcurrent(bitsize int, stop chan struct{}) (<-chan *big.Int, <-cha
 				x, err := Generate(bitsize, stopped)
 				if err != nil {
 					errs <- err
-					close(stopped)
+					closeStopped()
 					return
 				}
 
